@@ -1093,6 +1093,12 @@ def run_C12(tier, rng, stats):
                 rej.append(case(ev, 'eval', None, '1+' + left + right + '*2'))
                 if left in ('@', 'pi', 'e', 'π'):
                     rej.append(case(ev, 'eval', None, '(2)' + left))
+    # a literal directly followed by a literal is not a product (the lexer can split `.5.5`, `1.5.5`, `1..5`, `2ii` into two literal tokens)
+    for ev in ['f64', 'decimal', 'complex', 'number']:
+        nn = ['.5.5', '1.5.5', '1..5', '2.5.5.5', '0.5.5', '.5.25', '1..', '.5.'] + (['2ii', 'ii', 'i2', 'i.5', '2i.5', '.5i.5i', '2i3', 'i2i'] if ev == 'complex' else [])
+        for l in nn:
+            for c in ['%s', '(%s)', '2(%s)', '1+%s', '%s*2', 'abs(%s)', '-%s', '%s²', gen.F2[ev][0] + '(1,%s)'] + (['%s!'] if gen.HAS_BANG[ev] else []):
+                rej.append(case(ev, 'eval', None, c % l))
     stats['rule'] = ('implicit products A R (A: literal / group / floor-ceil brackets / call / factorial; R: group, brackets, call or literal with ^, superscript, ! suffixes) '
                      'in %d syntactic contexts per evaluator, each rendered implicitly and as (A*(R)); plus forbidden juxtapositions with constants, @, superscripts, ° and rad' % len(ctxs('f64')))
     res = run_pairs('C12', pairs, stats, profiles=('debug',))
@@ -1102,7 +1108,7 @@ def run_C12(tier, rng, stats):
     for c, x in zip(cases, outs['debug']):
         if c in rejset and vlib.outcome_class(x) == 'OK':
             res['violations'].insert(0, {'kind': 'forbidden-juxtaposition-accepted', 'cases': [list(c)], 'observed': x,
-                                         'why': 'a constant / @ / superscript / degree took part in an implicit product'})
+                                         'why': 'a constant / @ / superscript / degree / a literal after a literal took part in an implicit product'})
     return res
 
 WS = [0x9, 0xA, 0xB, 0xC, 0xD, 0x20, 0x85, 0xA0, 0x1680] + list(range(0x2000, 0x200B)) + [0x2028, 0x2029, 0x202F, 0x205F, 0x3000]
@@ -2343,7 +2349,7 @@ def run_C08(tier, rng, stats):
         if c not in meta:
             cs.append(c); meta[c] = ('model-only', '', ())
     # lexing of i
-    for e, want in [('i', 1j), ('2i', 2j), ('i*i', -1 + 0j), ('i²', None), ('1.5i+2', 2 + 1.5j), ('2ii', -2 + 0j), ('pi', complex(math.pi, 0)), ('.5i', 0.5j)]:
+    for e, want in [('i', 1j), ('2i', 2j), ('i*i', -1 + 0j), ('i²', None), ('1.5i+2', 2 + 1.5j), ('2i*i', -2 + 0j), ('2i(i)', -2 + 0j), ('pi', complex(math.pi, 0)), ('.5i', 0.5j)]:
         c = case('complex', 'eval', None, e); cs.append(c); meta[c] = ('lit', e, (want,))
     # real operands inside the real domain: agreement with eval_f64
     reals = [0.25, 0.5, 0.75, 1.0, 1.5, 2.0, 3.0, 10.0] + [(1 + rng.below(5000)) / 1000.0 for _ in range(n // 2)]
